@@ -139,6 +139,16 @@ func (sr *srcRenderer) vexpr(v any) string {
 		return fmt.Sprintf("%s + %d", str(m["n"]), num(m["d"]))
 	case "obs":
 		return fmt.Sprintf("r.V(%d, %s)", num(m["id"]), str(m["n"]))
+	case "gets":
+		return "get()"
+	case "pk":
+		return "inc1(" + str(m["n"]) + ")"
+	case "idg":
+		return "idg(" + str(m["n"]) + ")"
+	case "ln":
+		return `ln("abc")`
+	case "cnv":
+		return "cnv(int64(" + str(m["n"]) + "))"
 	case "neg":
 		return "-" + sr.vexpr(m["e"])
 	case "paren":
@@ -182,6 +192,8 @@ func (sr *srcRenderer) simple(s any) string {
 			return sr.api + "YieldFrom(" + call + ")"
 		}
 		return "rt.YF(yield, " + call + ")"
+	case "effx":
+		return fmt.Sprintf("r.E(%d, %s, 0)", num(m["id"]), sr.vexpr(m["v"]))
 	case "effkv":
 		return fmt.Sprintf("r.E(%d, %s, %s)", num(m["id"]), sr.kvName("k"), sr.kvName("v"))
 	case "effkk":
@@ -229,7 +241,7 @@ func (sr *srcRenderer) stmt(s any, ind string) string {
 	case "def":
 		n := str(m["n"])
 		return ind + sr.simple(s) + "\n" + ind + "_ = " + n + "\n"
-	case "eff", "inc", "callf", "passign", "panic", "yield", "yfrom", "setcv", "sets", "effkv", "effkk", "mut":
+	case "eff", "inc", "callf", "passign", "panic", "yield", "yfrom", "setcv", "sets", "effkv", "effkk", "mut", "effx":
 		return indent(sr.simple(s), ind)
 	case "range":
 		return sr.rangeStmt(m, ind)
@@ -419,6 +431,47 @@ func usesKind(ss []any, k string) bool {
 	return false
 }
 
+// optProlog declares the closures of eta shape that the program uses (spec/MC_Src.tla AOpt / ABy).
+func optProlog(prog []any) string {
+	js := canon(prog)
+	has := func(k string) bool { return strings.Contains(js, `"k":"`+k+`"`) }
+	var b strings.Builder
+	if has("cv") || has("setcv") {
+		b.WriteString("\tcv := func() bool { return r.T(90) }\n\t_ = cv\n")
+	}
+	if has("gets") || has("sets") {
+		b.WriteString("\ts := &box{v: 7}\n\tget := func() int { return s.Get() }\n\t_, _ = s, get\n")
+	}
+	if has("pk") {
+		b.WriteString("\tinc1 := func(x int) int { return pkgInc(x) }\n")
+	}
+	if has("idg") {
+		b.WriteString("\tidg := func(x int) int { return ident[int](x) }\n")
+	}
+	if has("ln") {
+		b.WriteString("\tln := func(x string) int { return len(x) }\n")
+	}
+	if has("cnv") {
+		b.WriteString("\tcnv := func(x int64) int { return int(x) }\n")
+	}
+	return b.String()
+}
+
+// helpers referenced by the closures of optProlog (declared once per package)
+const optDecls = `
+type box struct{ v int }
+
+func (b *box) Get() int { return b.v }
+func pkgInc(x int) int  { return x + 1 }
+func ident[T any](x T) T { return x }
+`
+
+// byFunc renders a bystander: a plain function (no yield) of a processed file.
+func (sr *srcRenderer) byFunc(name string, prog []any) string {
+	body := sr.block(prog, "\t")
+	return fmt.Sprintf("func %s(r *rt.Rec, a, b int) int {\n%s%s\treturn a\n}\n", name, optProlog(prog), body)
+}
+
 // genFunc renders one generator function named name.
 //
 //	trailing: "needed" appends `return nil` only when Go's terminating-statement rule
@@ -431,6 +484,7 @@ func (sr *srcRenderer) genFunc(name string, prog []any, trailing string) string 
 	if usesKind(prog, "range") || usesKind(prog, "effkk") {
 		prolog += rangeProlog
 	}
+	prolog += optProlog(prog)
 	if sr.md == coMode {
 		body := sr.block(prog, "\t")
 		if trailing == "always" || !terminatingList(prog) {
